@@ -93,6 +93,8 @@ func (s *burstyStats[R]) acquirePermits(requestedPermits int, maxWaitTime time.D
 		} else {
 			s.availablePermits = s.periodPermits
 		}
+		// Permits of elapsed periods that were not needed to pay off a deficit do not carry over
+		s.availablePermits = min(s.availablePermits, s.periodPermits)
 	}
 
 	waitTime := 0 * time.Second
